@@ -97,7 +97,7 @@ def coverage_zero_actions(out):
     return zero
 
 
-def validate_trace(spec, trace, timeout=1800, heap="3g", cfg="Trace.cfg", env=None):
+def validate_trace(spec, trace, timeout=5400, heap="3g", cfg="Trace.cfg", env=None):
     """validate one ndjson trace with a trace spec; returns the report written by the spec"""
     out = trace + ".report.json"
     if os.path.exists(out):
